@@ -1,8 +1,43 @@
-(* Props/C09.v — precision and mode are sticky; operands untouched (theorems to follow;
-   the precision/mode conclusions of the C01/C04 theorems already cover Add Sub Mul Quo Set SetPrec Neg Abs). *)
-From Coq Require Import ZArith.
-From Dec Require Import L3.Decimal L3.Arith.
+(* Props/C09.v — precision and rounding mode are sticky; operands are never
+   modified.  Statements only. *)
+From Coq Require Import ZArith List QArith.
+From Dec Require Import Base.QPow L3.Decimal L3.Round L3.Arith L3.Store Spec.Rounding L3.ArithProofs L3.SpecialProofs L3.StoreProofs.
 Open Scope Z_scope.
+
+(* operands that are not the receiver keep value, sign, precision, mode and accuracy: in the
+   model every operation writes exactly one variable (for ALL operations of the store) *)
+Theorem C09_operands_untouched : forall s o i, receiver o <> Some i -> get (fst (step s o)) i = get s i.
+Proof. exact operands_untouched. Qed.
+Print Assumptions C09_operands_untouched.
+
+(* the receiver's precision changes only from 0, to the largest operand precision, and its mode
+   never changes: these are the `prec z' = eff_prec z x y /\ dmode z' = dmode z` conclusions of
+   AddPost / OpPost / SpecialPost.  Restated for Add on arbitrary canonical operands: *)
+Theorem C09_add_special_attrs : forall zx zy z x y,
+  WF x -> WF y -> 0 <= prec z <= MaxPrec -> (zx = true -> z = x) -> (zy = true -> z = y) ->
+  SpecialPost z (eff_prec z x y) (add_table (dmode z) x y) (Add zx zy z x y).
+Proof. exact Add_special. Qed.
+Print Assumptions C09_add_special_attrs.
+
+Theorem C09_add_attrs : forall zx zy z x y,
+  WF x -> WF y -> dform x = Ffinite -> dform y = Ffinite -> 0 <= prec z <= MaxPrec ->
+  add_span x y + 40 < 4294967296 - 18 ->
+  AddPost (eff_prec z x y) (dmode z) (sval x + sval y) (Add zx zy z x y).
+Proof. exact Add_correct. Qed.
+Print Assumptions C09_add_attrs.
+
+Theorem C09_set_attrs : forall same z x,
+  WF x -> dform x = Ffinite -> mdigits (mant x) < 4294967296 - 18 ->
+  0 <= prec z <= MaxPrec -> (same = true -> z = x) ->
+  let p := if prec z =? 0 then prec x else prec z in
+  OpPost p (dmode z) (neg x) (mag x) (Set_ same z x).
+Proof. exact Set_correct. Qed.
+Print Assumptions C09_set_attrs.
+
+(* C09 for the remaining operations (Sub Mul Quo FMA SetPrec Neg Abs setters SetMantExp SetBitsExp):
+   the same conclusions are part of C01_*, C03_*, C04_*, C14_*, C20_*.  Sqrt and the float setters
+   are decided by the correspondence run (documented-attribute table in harness/props/C09.py). *)
+
 Example C09_examples :
   let z := mkDec [] 0 0 ToZero Exact Fzero false in
   let x := mkDec [1000000000000000000] 1 7 ToNearestEven Exact Ffinite false in
